@@ -86,7 +86,7 @@ def run(c, facts, tier):
         for meth in ("get_printer", "get_file_printer"):
             ps = mgr.paths(facts, M, meth)
             fn = facts.fn(codegen.mgr_key(facts, M, meth))
-            keys = {kv[0] for p in ps for fld, kv in p.inserts if fld == "printers"}
+            keys = {p.norm(kv[0]) for p in ps for fld, kv in p.inserts if fld == "printers"}
             for key in keys:
                 missing = [i for i in range(len(fn.params)) if "@%d" % i not in key]
                 c.ob("C10.key", "%s::%s" % (M, meth), "printer key contains destination and terminator", not missing, "key %s; parameters missing: %s" % (key, [fn.params[i][0] for i in missing]), witness="-fprint a -fprint0 a" if missing else None)
@@ -99,7 +99,7 @@ def run(c, facts, tier):
                     c.ob("C10.key", "%s::%s" % (M, meth), "the table entry names the destination and terminator as given", stripped == "", "table key %s%s" % (key, "" if stripped == "" else " — contains a derived value (%s): the entry no longer names the destination of the action" % stripped[:60]), witness="-fprint 'a\"b'" if stripped else None)
             for p in ps:
                 for fld, kv in p.inserts:
-                    c.ob("C10.key", "%s::%s" % (M, meth), "%s lookup key = insertion key [%s]" % (fld, (p.cond or "")[:50]), kv[0] in p.cond, "inserted under %s" % kv[0], nontrivial=False)
+                    c.ob("C10.key", "%s::%s" % (M, meth), "%s lookup key = insertion key [%s]" % (fld, (p.cond or "")[:50]), p.norm(kv[0]) in p.norm(p.cond), "inserted under %s" % p.norm(kv[0]), nontrivial=False)
     # C10.returned: on every path the printer handed back is the one registered under the key of THIS request
     for M in (framed, plain):
         if M is None:
@@ -112,8 +112,9 @@ def run(c, facts, tier):
                 ok, det = None, "returned value %s is not a generated printer name" % ret[:80]
                 if nm is not None and nm.kind == "print":
                     idx = nm.idx[1:-1] if nm.idx.startswith("{") else nm.idx
-                    keys = [kv[0] for fld, kv in p.inserts if fld == "printers"]
+                    keys = [p.norm(kv[0]) for fld, kv in p.inserts if fld == "printers"]
                     inserted = [kv[1] for fld, kv in p.inserts if fld == "printers"]
+                    idx = p.norm(idx)
                     viakey = "self.printers.get(" in idx and all("@%d" % i in idx for i in range(len(fn.params)))
                     direct = idx in inserted and keys and all("@%d" % i in keys[0] for i in range(len(fn.params)))
                     ok = bool(viakey or direct)
